@@ -79,3 +79,16 @@ func TestSweepDir(t *testing.T) {
 		}
 	}
 }
+
+func TestIPLintDetail(t *testing.T) {
+	if os.Getenv("VLOG_IPDETAIL") == "" {
+		t.Skip()
+	}
+	for n, v := range embeddedIP(t) {
+		src := detemplate(v)
+		d, _ := ParseDesign(map[string]string{n: src})
+		for _, dg := range Lint(d, LintOpts{}) {
+			t.Log(dg)
+		}
+	}
+}
